@@ -267,7 +267,7 @@ func VxH16graph() {
 
 func vxNoTempLeftC() bool {
 	for _, p := range vxFSList(".") {
-		if strings.HasPrefix(p, "_scipipe_tmp") || strings.HasSuffix(p, ".fifo") {
+		if strings.HasPrefix(p, vxTempPrefix()) || vxFSKind(p) == vxFifo {
 			return false
 		}
 	}
